@@ -45,7 +45,42 @@ ARITH = [("+ 1", "+ 0"), ("- 1", "- 0"), ("+ 1", "+ 2"), ("- 1", "- 2"), ("+ 2",
 BOOL = [(" && ", " || "), (" || ", " && ")]
 
 
+SWAPS2 = [("self.up_heapify(pos)", "self.heapify(pos)"), ("self.up_heapify(i)", "self.heapify(i)"), ("self.heapify(pos)", "self.heapify(i)"), ("self.heapify(i)", "self.heapify(pos)"),
+          ("self.heapify(Position(0))", "self.heapify(Position(1))"), ("left(r), ", ""), ("right(l), ", ""), (", right(r)]", "]"), ("[l, r, ", "[l, "),
+          ("self.len()", "(self.len() - 1)"), ("self.len()", "(self.len() + 1)"), ("self.store.size", "self.store.map.len()"), ("self.size", "self.map.len()"), ("self.map.len()", "self.size"),
+          (".rev()", ""), ("0..=", "0.."), ("parent(position)", "position"), ("parent(parent(position))", "parent(position)"), ("parent(i)", "i"), ("level(i)", "(level(i) + 1)"), ("level(position)", "(level(position) + 1)"),
+          ("head.0", "position.0"), ("position.0", "head.0"), ("i.0 <", "pos.0 <"), ("pos.0 <", "i.0 <"), ("Position(i)", "Position(0)"), ("Index(i)", "Index(0)"), ("other.size", "self.size"), ("self.size", "other.size"),
+          ("heap_pos.0", "qpi.0"), ("qpi.0", "heap_pos.0"), ("swap_remove_index", "shift_remove_index"), ("swap_remove_full", "shift_remove_full"), ("pop_min", "pop_max"), ("(min, _)", "(_, Some(min))"),
+          ("unwrap_or(true)", "unwrap_or(false)"), ("Some(len)", "Some(len + 1)"), ("(len, Some(len))", "(0, Some(len))"), ("iter.len()", "iter.len() + 1"), (".next_back()", ".next()"), ("get_or_insert_with", "insert")]
+SECOND = False
+
+
 def mutants():
+    if SECOND:
+        return mutants2()
+    return mutants1()
+
+
+def mutants2():
+    out = []
+    for f in FILES:
+        lines = open(os.path.join(REPO, f)).read().split("\n")
+        in_test = False
+        for i, l in enumerate(lines):
+            st = l.strip()
+            if st.startswith("#[cfg(test)]"):
+                in_test = True
+            if in_test or st.startswith("//") or st.startswith("#[") or not st:
+                continue
+            for a, b in SWAPS2:
+                if a in l:
+                    nl = l.replace(a, b, 1)
+                    if nl != l:
+                        out.append({"file": f, "line": i + 1, "op": a + " -> " + (b or "<removed>"), "orig": l.strip(), "new": nl.strip(), "_new_line": nl})
+    return out
+
+
+def mutants1():
     out = []
     for f in FILES:
         lines = open(os.path.join(REPO, f)).read().split("\n")
@@ -122,6 +157,8 @@ def main():
     limit, stride, offset = int(opt("--limit", "100000")), int(opt("--stride", "1")), int(opt("--offset", "0"))
     outp = opt("--out", os.path.join(ROOT, "results.jsonl"))
     checks = opt("--checks", ",".join(DEFAULT_CHECKS)).split(",")
+    global SECOND
+    SECOND = "--second" in args
     if "--no-setup" not in args:
         setup()
     ms = mutants()
